@@ -146,6 +146,9 @@ pub fn run(ctx: &Ctx) {
     random_stage(ctx, "big", ctx.tier.pick(160, 3_000), big_history_strategy, |ops: &Vec<Op>, local| {
         run_history(ops, ObsPolicy::Scaled, false, local)
     });
+    random_stage(ctx, "page-clears", ctx.tier.pick(64, 1_200), page_clear_history_strategy, |ops: &Vec<Op>, local| {
+        run_history(ops, ObsPolicy::Scaled, false, local)
+    });
 }
 
 pub fn replay(case: &Value) -> Check {
